@@ -176,7 +176,7 @@ def _public_worker(job):
     H = _G["H"]
     R = H.R
     D = _G["D"]
-    p, base = wire.header_samples(R)[k]
+    p, base = wire.header_samples(R, every=_G["tier"] == "thorough")[k]
     S, D_, Pr = z3.BitVec("src", 8), z3.BitVec("dst", 8), z3.BitVec("prio", 3)
 
     def h():
@@ -200,7 +200,7 @@ def _public_worker(job):
             continue
 
         def w(mm):
-            return {"kind": "public", "fmt": fmt, "sample": k, "src": mm.eval(S, True).as_long(), "dst": mm.eval(D_, True).as_long(), "prio": mm.eval(Pr, True).as_long()}
+            return {"kind": "public", "fmt": fmt, "sample": k, "every": _G["tier"] == "thorough", "src": mm.eval(S, True).as_long(), "dst": mm.eval(D_, True).as_long(), "prio": mm.eval(Pr, True).as_long()}
         if pa.kind != "return" or pa.value[1] is None:
             rep.violation({"kind": "public-path-lost", "fmt": fmt, "def": p.id}, "%s: %s message not returned after encode->decode (%r)" % (fmt, p.id, pa.value if pa.kind != "return" else None), w(m0))
             continue
@@ -239,7 +239,8 @@ def run(tier, seed):
     rep.functions = ["encoder.encode_ebyte / encode_usb / encode_yacht_devices / encode_actisense / _encode / _encode_fast_message / _build_header",
                      "decoder.decode_tcp / decode_usb / decode_yacht_devices_string / decode_actisense_string / _extract_header",
                      "utils.calculate_canbus_checksum"]
-    rep.bounds = {"single-frame data length": "every length 1..8, symbolic bytes", "fast-packet payloads": "9, 13, 14, 20, 27 bytes (short and full last frames)",
+    rep.bounds = {"single-frame data length": "every length 1..8, symbolic bytes", "fast-packet payloads": "9, 13, 14, 20, 27 bytes (short and full last frames)" if tier == "quick" else "every length 9..50 and 100, 111, 216, 217, 222, 223",
+                  "public path": "4 sample definitions (PDU1/PDU2 x single/fast)" if tier == "quick" else "one in-range payload of every encodable definition, symbolic addressing",
                   "addressing": "symbolic source, destination, priority", "corruption": "every position 2..19 x every non-zero delta (symbolic)"}
     rep.stubs = ["_call_encode_function returns n symbolic bytes in the framing harness (codec = C02/C09)", "_decode replaced by a recorder",
                  "receive-side prefixes prepended: '%s' (Yacht Devices), '%s' (Actisense)" % (wire.YD_PREFIX, wire.ACT_PREFIX)]
@@ -248,12 +249,12 @@ def run(tier, seed):
     for fmt in FMTS:
         for n in range(1, 9):
             jobs.append((fmt, single_pdu2 if n % 2 else single_pdu1, n, False))
-        for n in (9, 13, 14, 20, 27):
+        for n in ((9, 13, 14, 20, 27) if tier == "quick" else tuple(range(9, 51)) + (100, 111, 216, 217, 222, 223)):
             jobs.append((fmt, fastp, n, True))
-    pub = [(fmt, k) for fmt in FMTS for k in range(len(wire.header_samples(R)))]
+    pub = [(fmt, k) for fmt in FMTS for k in range(len(wire.header_samples(R, every=tier == "thorough")))]
     from .common import run_jobs
-    run_jobs(rep, _worker, jobs, timeout_s=300)
-    run_jobs(rep, _public_worker, pub, timeout_s=300)
+    run_jobs(rep, _worker, jobs, timeout_s=300 if tier == "quick" else 3000)
+    run_jobs(rep, _public_worker, pub, timeout_s=300 if tier == "quick" else 3000)
     rep.count("framing_jobs", len(jobs))
     rep.count("public_path_jobs", len(pub))
     rep.coverage.update(explanation="bounded symbolic verification of the four wire formats: %d framing jobs (format x data length) with symbolic bytes and addressing, "
@@ -310,7 +311,7 @@ def replay(r):
         return bool(problems), "; ".join(problems[:3])
     if r["kind"] == "public":
         fmt = r["fmt"]
-        p, base = wire.header_samples(N)[r["sample"]]
+        p, base = wire.header_samples(N, every=bool(r.get("every")))[r["sample"]]
         m = wire.make_message(N, p, base, r["src"], r["dst"], r["prio"])
         try:
             pks = wire.encode_packets(N, N.encoder.NMEA2000Encoder(), fmt, m)
